@@ -266,6 +266,13 @@ func (mbs *metadataPartStorage) AppendObject(ctx context.Context, bucketName sto
 			Size:         totalSize,
 			Parts:        allParts,
 		}
+		if existingObject != nil {
+			// Appends preserve the object's metadata, tags and storage class. A new
+			// version written by the append (versioning enabled) has to carry them.
+			updatedObject.Metadata = existingObject.Metadata
+			updatedObject.Tags = existingObject.Tags
+			updatedObject.StorageClass = existingObject.StorageClass
+		}
 
 		metaOpts := &metadatastore.AppendObjectOptions{}
 		metadataResult, err := mbs.metadataStore.AppendObject(ctx, tx.SqlTx(), bucketName, updatedObject, metaOpts)
